@@ -34,15 +34,25 @@ def gen_world(rng, pk):
             children.insert(rng.randint(0, len(children)), F.SectD(a, "fx" + a, False, False, None))
     sd = F.SchemaD(children, types)
     pkgs = []
-    for j in range(rng.randint(0, 2)):
+    npk = rng.randint(0, 2)
+    names = [pk.fresh_name() for _ in range(npk)]
+    # sometimes the generated components import each other (a cycle) or one imports the other: %import of one then brings
+    # in both, each exactly once
+    shape = rng.choice(["none", "none", "cycle", "chain"]) if npk == 2 else "none"
+    for j in range(npk):
         ptypes = []
         for i in range(rng.randint(1, 2)):
             n = "pt%d_%d" % (j, i) if rng.random() < 0.8 else "shared"
             if any(t.name == n for t in ptypes):
                 continue
             ptypes.append(F.TypeD(n, [], implements=rng.choice(abss) if rng.random() < 0.8 else None))
-        name = pk.add_component(ptypes)
-        pkgs.append((name, ptypes))
+        imports = ()
+        if shape == "cycle":
+            imports = (names[1 - j],)
+        elif shape == "chain" and j == 0:
+            imports = (names[1],)
+        pk.add_component(ptypes, name=names[j], imports=imports)
+        pkgs.append((names[j], ptypes, imports))
     bad = {"nocomp": pk.add_plain_package(), "module": pk.add_module(), "missing": "zcv_no_such_package_%d" % rng.randint(0, 999)}
     return sd, abss, con, impl, pkgs, bad
 
@@ -55,22 +65,42 @@ def expected(abss, con, impl, pkgs, bad, lines, slots=None):
     visible = dict(impl)              # concrete type -> abstract implemented (or None)
     imported = set()
     used = set()
+    defs = {}
     if slots is None:
         slots = [(None, a) for a in abss]
+    bypkg = {e[0]: e for e in pkgs}
+
+    def do_import(p):
+        """a component is recorded, then its own imports are read, then its types are defined; each component once"""
+        if p in imported:
+            return True
+        imported.add(p)
+        e = bypkg.get(p)
+        if e is None:
+            return True
+        for q in (e[2] if len(e) > 2 else ()):
+            if not do_import(q):
+                return False
+        for t in e[1]:
+            if t.name in visible or t.name in abss:
+                return False                # a type name cannot be redefined
+            visible[t.name] = t.implements
+        return True
+
     for l in lines:
-        if l.startswith("%import "):
+        if l.startswith("%define "):
+            parts = l.split(None, 2)
+            defs.setdefault(parts[1].lower(), parts[2] if len(parts) > 2 else "")
+        elif l.startswith("%import "):
             p = l.split()[1]
+            if p.startswith("$"):
+                p = defs.get(p.strip("${}").lower())
+                if p is None:
+                    return "reject"
             if p in bad.values() or p.startswith(".") or ".." in p or p.endswith("."):
                 return "reject"
-            if p in imported:
-                continue
-            imported.add(p)
-            for name, ptypes in pkgs:
-                if name == p:
-                    for t in ptypes:
-                        if t.name in visible or t.name in abss:
-                            return "reject"     # a type name cannot be redefined
-                        visible[t.name] = t.implements
+            if not do_import(p):
+                return "reject"
         else:
             parts = l[1:-2].strip().split()
             t = parts[0].lower()
@@ -96,17 +126,25 @@ def expected(abss, con, impl, pkgs, bad, lines, slots=None):
 
 
 def gen_text(rng, abss, con, impl, pkgs, bad, fixed=()):
-    names = list(con) + list(abss) + ["nosuch"] + [t.name for _, ptypes in pkgs for t in ptypes]
+    names = list(con) + list(abss) + ["nosuch"] + [t.name for e in pkgs for t in e[1]]
     lines = []
     for _ in range(rng.randint(1, 6)):
         r = rng.random()
         if r < 0.3 and pkgs:
-            lines.append("%import " + rng.choice(pkgs)[0])
+            pn = rng.choice(pkgs)[0]
+            if rng.random() < 0.25:
+                # the package name through a definition
+                lines.append("%define zpk" + str(len(lines)) + " " + pn)
+                lines.append("%import " + rng.choice(["$zpk", "${ZPK", "${zpk"]) + str(len(lines) - 1) + ("}" if lines[-1] and rng.random() < 2 and False else ""))
+                if "{" in lines[-1]:
+                    lines[-1] += "}"
+            else:
+                lines.append("%import " + pn)
         elif r < 0.36:
             lines.append("%import " + rng.choice(list(bad.values()) + ["a..b", ".x"]))
         else:
             # favour names that make the load succeed
-            good = [n for n in names if impl.get(n)] + [t.name for _, pt in pkgs for t in pt if t.implements]
+            good = [n for n in names if impl.get(n)] + [t.name for e in pkgs for t in e[1] if t.implements]
             n = rng.choice(good) if good and rng.random() < 0.7 else rng.choice(names)
             r2 = rng.random()
             if fixed and r2 < 0.35:
@@ -132,13 +170,14 @@ def run(ctx):
             elab = F.elaborate(sd)
             if not cfgstream.check_digest(ctx, sd, real, elab):
                 continue
-            mp = [pkggen.model_pkg(n, pt, elab) for n, pt in pkgs] + \
+            nested = any(e[2] for e in pkgs)     # the model's packages are flat: components importing components are compared with the reference only
+            mp = [pkggen.model_pkg(e[0], e[1], elab) for e in pkgs] + \
                  [[bad["nocomp"], core.sexp.Atom("nocomponent")], [bad["module"], core.sexp.Atom("notpackage")],
                   [bad["missing"], core.sexp.Atom("notimportable")], ["a..b", core.sexp.Atom("illegalname")], [".x", core.sexp.Atom("illegalname")]]
             slots = [(c.name if c.name not in ("*", "+", None) else None, c.type) for c in sd.children]
             fixed = [f for f, _ in slots if f]
             texts = [gen_text(rng, abss, con, impl, pkgs, bad, fixed) for _ in range(12)]
-            if ctx.driver_ok:
+            if ctx.driver_ok and not nested:
                 ans = core.driver_batch([cfgrun.model_load_request(elab, t, cfgstream.URL, pkgs=mp) for t in texts])
             else:
                 ans = [None] * len(texts)
@@ -154,7 +193,7 @@ def run(ctx):
                     ctx.nontriv((id(sd), tuple(t)))
                 got = "ok" if out[0] == "ok" else "reject" if out[0] == "cfg" else out[0]
                 gotf = "ok" if fresh[0] == "ok" else "reject" if fresh[0] == "cfg" else fresh[0]
-                rep = {"schema_xml": F.render_xml(sd), "lines": t, "packages": {n: F.render_xml(F.SchemaD([], pt), "component") for n, pt in pkgs},
+                rep = {"schema_xml": F.render_xml(sd), "lines": t, "packages": {e[0]: [F.render_xml(F.SchemaD([], e[1]), "component"), list(e[2])] for e in pkgs},
                        "history": list(history), "expected": exp, "reused_schema": out[:2], "fresh_schema": fresh[:2]}
                 if a is not None:
                     m = cfgrun.canon_model(a)
